@@ -101,7 +101,7 @@ ADD_TEXT = {
  'C07': 'hasRead / hasWritten are proved for ANY size (no wrap of index + size).',
  'C09': 'Sink (filter, handleLog, cached timestamp string, enable/disable order), the AsyncSink back-end re-framing loop and the record formatting (every append inside its source object) are under contract as well.',
  'C12': 'Server::Impl::commitRespond (order, once, nothing after the closing response) and Server::Impl::onTcpReceived (one context per request, the closing request is the last one, the read side stays open while a response is owed, clean drop on parse failure); the parser contract also states that a declared body is part of what is consumed.',
- 'C13': 'Telnetd::Impl::onTcpReceived framing loop: bounds of every byte looked at, complete-negotiation-or-wait, progress (bounded domain: 64 pending bytes).',
+ 'C13': 'Terminal::Impl::onRecvString (scanner restarted per segment and per key, every completed key dispatched to exactly its editor action once). Telnetd::Impl::onTcpReceived framing loop: bounds of every byte looked at, complete-negotiation-or-wait, progress (bounded domain: 64 pending bytes).',
  'C14': 'Rpc::request / onRecvRespond / onRequestTimeout: one fresh id per request for callback, deadline and message; an outstanding id is completed exactly once, unknown / duplicate / late ids are ignored.',
  'C15': 'UdpSocket::onSocketEvent hands the receive callback only bytes that recvfrom stored; Deserializer::checkSize / setEndian are under contract.',
  'C18': 'Condition<int>, Broadcast and the Scheduler bookkeeping around the context switches (makeRoutineReady, resume, cancel, switchToRoutine, wait, yield, join; swapcontext as a direction-specific stub) are under contract as well.',
